@@ -50,6 +50,14 @@ template <class T> struct hasStridesArr<T, std::void_t<decltype(std::declval<con
 
 template <Kind K, class E, size_t SP> void regMap(const std::string& key) {
   registry()[key] = [](const Op& o) -> std::string {
+    using M0 = typename MapOf<K, E, SP>::type;
+    if (o.op == "dflt") {      // default construction: default extents (dynamic positions 0); layout_stride gets row-major strides
+      if constexpr (std::is_default_constructible_v<M0>) {
+        M0 d{}; using I0 = typename M0::index_type; constexpr size_t R0 = E::rank();
+        std::array<I0, R0> s0{}; if constexpr (R0 > 0) for (size_t r = 0; r < R0; r++) s0[r] = d.stride(r);
+        return "ok e=" + extList(d.extents()) + " s=" + list(s0) + " span=" + num(static_cast<I0>(d.required_span_size()));
+      } else return "no-op";
+    }
     auto m = makeMap<K, E, SP>(o);
     using M = decltype(m);
     if (o.op == "stridesarr") {
